@@ -4,6 +4,7 @@ package tables
 
 import (
 	"bytes"
+	"database/sql"
 	"encoding/json"
 	"fmt"
 	"net/http"
@@ -27,6 +28,12 @@ type c43Env struct {
 	hist     []string // protocol lines of the current history (the replayable input of a failure)
 	seen     map[string]bool
 	nfail    int
+
+	// the database DSN service variant (zz_verif_c43f_test.go)
+	db      bool   // the current history runs against dsns.NewDatabaseService
+	useDB   func() // installs the run's database service as dsns.DSNService
+	closeDB func()
+	dsnRaw  *sql.DB // raw connection to the DSN store (tables dsns, dsns_auth)
 }
 
 func (e *c43Env) emit(in, impl string) {
